@@ -298,11 +298,26 @@ func (c *Ctx) ssaFunc(pkgShort, name string) *ssa.Function {
 		if !ok {
 			return nil
 		}
-		if f := c.Prog.LookupMethod(types.NewPointer(t.Type()), sp.Pkg, mn); f != nil && f.Synthetic == "" {
-			return f
+		// LookupMethod panics on a method that does not exist: ask the method sets first
+		has := func(recv types.Type) bool {
+			ms := types.NewMethodSet(recv)
+			for i := 0; i < ms.Len(); i++ {
+				if ms.At(i).Obj().Name() == mn && ms.At(i).Obj().Pkg() == sp.Pkg {
+					return true
+				}
+			}
+			return false
+		}
+		if has(types.NewPointer(t.Type())) {
+			if f := c.Prog.LookupMethod(types.NewPointer(t.Type()), sp.Pkg, mn); f != nil && f.Synthetic == "" {
+				return f
+			}
 		}
 		// a method with a value receiver: the pointer method set only holds a synthetic wrapper
-		return c.Prog.LookupMethod(t.Type(), sp.Pkg, mn)
+		if has(t.Type()) {
+			return c.Prog.LookupMethod(t.Type(), sp.Pkg, mn)
+		}
+		return nil
 	}
 	f, _ := sp.Members[name].(*ssa.Function)
 	return f
